@@ -10,6 +10,7 @@
 -/
 import MdwModel.Model.ThreadNames
 import MdwModel.Theorems.C16
+import MdwModel.Theorems.Image
 namespace Mdw
 
 def strBytesOf (us : List Nat) : Bytes := le 4 (2 * us.length) ++ units16LE us
@@ -234,5 +235,34 @@ theorem C15_legacy_counterexample :
     (match writeThreadNames Buf.empty [(7, none), (9, some [97])] with
      | .ok (b, _, loc) => decodeThreadNames (viewOfList b.inner) loc.rva
      | _ => none) = some [(9, [97])] := by decide
+
+
+-- the whole image ----------------------------------------------------------------------------------------------------
+
+theorem nameRecs_eq_recsFrom (pos : Nat) (ns : List (Nat × List Nat)) : nameRecs pos ns = recsFrom pos ns := by
+  induction ns generalizing pos with
+  | nil => rfl
+  | cons a r ih =>
+    obtain ⟨t, u⟩ := a
+    have : (mdStr u).length = strLen u := by simp [mdStr, strLen, units16LE_length]; omega
+    simp [nameRecs, recsFrom, ih, this]
+
+/-- the closed-form thread-names stage of the image model is what the operational model of the writer (builder
+    operations of src/mem_writer.rs, `writeThreadNames`) produces -/
+theorem C15_image_refines (b : Buf) (ts : List NThread) (htid : ∀ t ∈ ts, t.1 < 2 ^ 31)
+    (hsmall : b.len + 4 + 12 * (expectedNames ts).length + strsLen (expectedNames ts) < 2 ^ 32) :
+    writeThreadNames b ts = .ok (⟨b.inner ++ namesBody b.len (expectedNames ts)⟩, STREAM_THREAD_NAMES,
+      ⟨4 + 12 * (expectedNames ts).length, b.len⟩) := by
+  rw [C15_layout b ts htid hsmall]
+  simp [namesBody, nameRecs_eq_recsFrom, strsOf, strBytesOf, mdStr, List.append_assoc]
+
+/-- **C15 (image).** in the model's image of any content, record `j` of the thread-names stream carries the id of the
+    `j`-th named thread and the location of that thread's name string -/
+theorem C15_image_name (d : DumpIn) (j : Nat) (tid : Nat) (us : List Nat) (hj : d.names[j]? = some (tid, us)) :
+    let pos := (acc16 d).pos
+    let q := pos + 4 + 12 * d.names.length + nameOff d.names j
+    At (dumpBytes d) pos (le 4 d.names.length) ∧
+    At (dumpBytes d) (pos + 4 + 12 * j) (nameRecord tid q) ∧
+    At (dumpBytes d) q (mdStr us) := Image_name d j tid us hj
 
 end Mdw
